@@ -314,8 +314,8 @@ class AttributeAssignment:
         """
         attr_type = self.attr._type_
         return (not attr_type) or (
-            (self.assigned_value.type_ and self.assigned_value.type_ is not attr_type)
-            and issubclass(self.assigned_value.type_, attr_type)
+            self.assigned_value.type_
+            and not issubclass(attr_type, self.assigned_value.type_)
         )
 
 
